@@ -47,7 +47,7 @@ run "28dbd0c -P pops parent (D2)" C03 -- 28dbd0c
 run "2b7aed6 number normalisation (D3)" C04 C05 -- 2b7aed6
 run "48b586a bkli multiset (D12)" C16 -- 48b586a
 run "ca6b8bb decode normalize (D13)" C14 -- ca6b8bb
-run "dfa9e75 toml nil doc" C15 -- dfa9e75
+run "dfa9e75 toml nil doc" C05 -- dfa9e75
 run "0ca17d9 bkld fallback (D11)" C15 -- 0ca17d9
 run "aadbaa0 yaml << quoting" C05 -- aadbaa0
 run "64284f9 YAML block-scalar guard" C14 C05 -- 64284f9
@@ -61,3 +61,4 @@ run "306671e yaml separators" C04 -- 306671e
 run "38477fe bkld empty toml layer" C15 -- 38477fe
 run "d8b25ca yaml alias as key" C04 -- d8b25ca
 run "1ee3d64 yaml infinite floats" C14 -- 1ee3d64
+run "91801cb yaml leading empty document" C05 -- 91801cb
